@@ -344,5 +344,6 @@ def check(run):
                 "{0.1, 0.5}; 3-step histories; one-site PS at bond limits 1, 2 (norm/energy/limit); linear tree vs chain implementation; purified P x Q trees "
                 "(max_entangled_ex + imaginary time) vs dense Gibbs state; distinct = case x clause")
     run.sample({"shape": "((), ())", "method": "tdvp_ps2", "imaginary": True, "|H|t": 0.5, "contract": "|psi - e^{-tH}psi0/|.|| within the local-solver bound (exactness at full bond dimension)"})
-    run.explanation = "bounded only; bounds as in C09"
+    run.explanation = ("Decided exactly (Engine S, every rooted ordered tree shape of the universe): the propagation-and-compression step is the Taylor polynomial; "
+                       "evolve_tdvp_ps / ps2 pose exactly the local problems of the tree projector-splitting integrator (call by contract at expm_krylov). Bounded: accuracy bounds as in C09.")
     run.trusted += ["scipy.linalg.expm", "independent tree contraction", "print_tree shim"]
